@@ -1,0 +1,5 @@
+//! Verification hooks (only compiled with `--cfg dust_dds_verif`): add-only re-exports of
+//! crate-internal items so that an external harness can drive them. No behaviour is changed.
+pub use crate::dcps::dcps_domain_participant::data_reader_entity::{
+    AddChangeResult, DataReaderEntity, InstanceOwnership, InstanceState, ReaderSample,
+};
